@@ -2,11 +2,13 @@
 from propcommon import COMMON_MODELLED
 PROP = dict(
         gotest="TestC12",
+        translator="arithC12",
+        extra_props=["ArithTieC12"],
         extra_gotests=[("TestZdec", "Zdec")],
         model="coq/Models/Commit.v (exact: AddCommittedTokens, DeductFromCommitted, CommitLiquidTokens, UncommitTokens incl. liquidation flag, "
               "CommitClaimedRewards, BurnEdenBoost, DepositLiquidTokensClaimed, claimed ledger, estaking EdenUncommitted burn formula; "
               "TotalCommitted updates per call site as coded)",
-        coq_deps=["Base/", "Models/Commit.v", "Proofs/CommitProofs.v", "Run/CommitRun.v", "Props/C12.v"],
+        coq_deps=["Base/", "Models/Commit.v", "Proofs/CommitProofs.v", "Run/CommitRun.v", "Props/C12.v", "Generated/ArithC12.v", "Proofs/ArithTieTac.v", "Proofs/ArithTieC12.v", "Props/ArithTieC12.v"],
         rule="APP: histories of 28-54 ops + claimable Eden/EdenB seeding over 4 of 6 users on a fresh real app with the market fixture: "
              "MsgCommitClaimedRewards, MsgUncommitTokens, stablestake MsgBond/MsgUnbond, amm MsgJoinPool/MsgExitPool on the oracle pool (1h lock) and the "
              "constant-product pool, MsgStake, keeper calls as other modules make them (CommitLiquidTokens with locks, UncommitTokens with/without the "
@@ -14,7 +16,11 @@ PROP = dict(
              "unlock-1/unlock/unlock+1; amounts relative to committed/claimed/unlocked (1, 0.1%, 1/3, 1/2, all-1, all, all+1, 2x, unlocked, unlocked±1), "
              "also <=0; PURE: 4-12 AddCommittedTokens/DeductFromCommitted calls on 3 denoms with unlock times == now, now±1, amounts 0..1e30. "
              "distinct = distinct (op,denom,result,account) sequence; non-trivial = at least one successful commit, uncommit or deduct",
-        trusted_base=["hook side effects other than the EdenUncommitted EdenB burn are taken as not touching the ledger (checked by the per-step comparison)",
+        trusted_base=["tools/gotrans arith (Go AST + go/types -> Gallina over Base/Zdec.v, Base/U64.v): the method table of coq/Generated/ARITH_README.md; ties the per-entry tests and values of "
+                      "DeductFromCommitted / AddCommittedTokens / CommittedTokensLocked to deduct_committed / add_committed / keep_lock / locked_sum; the loops over entries and lock-ups, "
+                      "the denom comparison that selects the entry, and that a value assigned through c.CommittedTokens[i].Amount is what the same path reads later (no aliasing "
+                      "between different access paths) are read by hand and covered by the correspondence run",
+                      "hook side effects other than the EdenUncommitted EdenB burn are taken as not touching the ledger (checked by the per-step comparison)",
                       "Eden/EdenB credited by estaking WithdrawAllRewards inside the hook and the account's ElysStaked are read from the implementation",
                       "claimable Eden/EdenB is seeded through CommitmentKeeper.SetCommitments (fixture), keeper calls are made on a cache context by the harness"],
         modelled="x/commitment ledger handlers + estaking burn formula as Gallina functions over Z; leveragelp/masterchef/vesting callers are not driven "
